@@ -23,7 +23,9 @@
      - MacroscopicCrossSectionCreator: the vector reactions as above; scatter matrices summed over the LIBRARY's nuclides
        of that suffix with the composition's density (0 when not in the composition); absorption = sum of the seven
        absorption reactions; totalScatter = elastic + inelastic + 2 x n2n matrices; removal = absorption - n2n +
-       column sums of totalScatter - its diagonal.
+       column sums of totalScatter - its diagonal, i.e. absorption plus everything scattered OUT of the group, to lower
+       and to higher energies alike (the tables have up-scatter entries, so the two sides of the diagonal both count).
+     - multipliers: nu per group from the micros; efiss / ecapt from the nuclide's ISOTXS record, where 0.0 is a value.
      - XSCollection.getTotalScatterMatrix on one nuclide: the same sum over the matrices the nuclide HAS ("if a specific
        scattering matrix does not exist ... it is skipped").
 
@@ -64,17 +66,24 @@ Sig(v, n, s, r, g) == IF Has(v, n, r) THEN RFrac(1 + ((3 * n + 5 * RIdx(r) + 7 *
 Nu(n, g)        == IF Fis(n) THEN RFrac(9 + g, 4) ELSE RZero
 Tot(v, n, s, g) == RFrac(40 + ((n + 3 * g + SIdx(s) + v) % 8), 4)
 Trn(v, n, s, g) == RFrac(32 + ((2 * n + g + SIdx(s) + v) % 8), 4)
-EFiss(n) == IF Fis(n) THEN RFrac(3 + n, 2) ELSE RZero
-ECapt(n) == RFrac(1 + n, 4)
+\* energy per fission / per capture (ISOTXS efiss, ecapt: scalars of the nuclide record).  A file states them for every
+\* nuclide; exactly 0 is a legal value (a nuclide whose captures / fissions release nothing) and must act as 0, not as
+\* "absent": some (variant, nuclide) pairs carry a zero with non-zero cross sections
+EFiss(v, n) == IF Fis(n) /\ v # 2 THEN RFrac(3 + n, 2) ELSE RZero
+ECapt(v, n) == IF ((v + n) % 3) = 0 THEN RZero ELSE RFrac(1 + n, 4)
 
 ScatKinds == <<"elasticScatter", "inelasticScatter", "n2nScatter">>
 MIdx(m)   == CHOOSE i \in 1..3 : ScatKinds[i] = m
 HasScat(v, n, m) == CASE m = "elasticScatter" -> TRUE
                       [] m = "inelasticScatter" -> ((v + n) % 2) = 0
                       [] OTHER -> ((v + n) % 3) # 0
-\* [to][from], down-scatter only, some zeros inside the band (sparse)
+\* [to][from].  Down-scatter (from < to, to a lower energy) with some zeros inside the band (sparse); UP-scatter (from > to)
+\* in the elastic and inelastic matrices of some nuclides, so that "what leaves a group" (a column of the matrix without its
+\* diagonal term) has entries on both sides of the diagonal; the (n,2n) matrix scatters down only
+UpScat(v, n, m, to, from) == m # "n2nScatter" /\ ((v + n + MIdx(m) + to + 2 * from) % 2) = 0
 Scat(v, n, s, m, to, from) ==
-    IF ~HasScat(v, n, m) \/ from > to \/ (from < to /\ ((to + from + n + MIdx(m) + v) % 3) = 0) THEN RZero
+    IF ~HasScat(v, n, m) \/ (from > to /\ ~UpScat(v, n, m, to, from))
+       \/ (from < to /\ ((to + from + n + MIdx(m) + v) % 3) = 0) THEN RZero
     ELSE RFrac(1 + ((n + 3 * MIdx(m) + 5 * to + 7 * from + SIdx(s) + v) % 6), 8)
 
 HasGHeat(v, n) == ((v + n) % 2) = 1
@@ -118,8 +127,8 @@ MacroTot(v, c, s)       == WSum(c, s, LAMBDA n, g : Tot(v, n, s, g), Grp)
 MacroTrn(v, c, s)       == WSum(c, s, LAMBDA n, g : Trn(v, n, s, g), Grp)
 MacroNHeat(v, c, s)     == WSum(c, s, LAMBDA n, g : NHeat(v, n, s, g), Grp)
 MacroGHeat(v, c, s)     == WSum(c, s, LAMBDA n, g : GHeat(v, n, s, g), GGrp)
-MacroFisE(v, c, s)      == WSum(c, s, LAMBDA n, g : RMul(Sig(v, n, s, "fission", g), EFiss(n)), Grp)
-MacroCapE(v, c, s)      == WSum(c, s, LAMBDA n, g : RMul(RSumSet(Capture, LAMBDA r : Sig(v, n, s, r, g)), ECapt(n)), Grp)
+MacroFisE(v, c, s)      == WSum(c, s, LAMBDA n, g : RMul(Sig(v, n, s, "fission", g), EFiss(v, n)), Grp)
+MacroCapE(v, c, s)      == WSum(c, s, LAMBDA n, g : RMul(RSumSet(Capture, LAMBDA r : Sig(v, n, s, r, g)), ECapt(v, n)), Grp)
 MacroScat(v, c, s, m)   == [t \in Grp |-> [f \in Grp |-> RSumSet(LibNucs(s), LAMBDA n : RMul(c[n], Scat(v, n, s, m, t, f)))]]
 
 \* everything one case is asked about, as one record; the derived quantities are built from the macroscopic parts
@@ -180,6 +189,12 @@ DerivedCommute == Complete =>
     /\ H.absorption   = WSum(C, S, LAMBDA n, g : MicroAbs(V, n, S)[g], Grp)
     /\ H.removal      = WSum(C, S, LAMBDA n, g : MicroRemoval(V, n, S)[g], Grp)
     /\ H.totalScatter = [t \in Grp |-> [f \in Grp |-> RSumSet(LibNucs(S), LAMBDA n : RMul(C[n], MicroTotScat(V, n, S)[t][f]))]]
+\* the domain really contains what the laws are about: a zero energy-per-capture and a zero energy-per-fission next to
+\* non-zero cross sections, and scatter entries on both sides of the diagonal (checked once, on the constants)
+ASSUME /\ \E v \in Variants : \E n \in 1..3 : RIsZero(ECapt(v, n)) /\ \E g \in Grp : ~RIsZero(Sig(v, n, "AA", "nGamma", g))
+       /\ \E v \in Variants : RIsZero(EFiss(v, 1)) /\ \E g \in Grp : ~RIsZero(Sig(v, 1, "AA", "fission", g))
+       /\ \A v \in Variants : \E n \in 1..3 : \E t, f \in Grp : f > t /\ ~RIsZero(Scat(v, n, "AA", "elasticScatter", t, f))
+       /\ \A v \in Variants : \E n \in 1..3 : \E t, f \in Grp : f < t /\ ~RIsZero(Scat(v, n, "AA", "elasticScatter", t, f))
 TypeOK == case.v \in Variants /\ case.sfx \in Sfxs /\ Len(case.d) <= NNuc /\ \A i \in 1..Len(case.d) : case.d[i] \in Dens
 
 (* ==================================== what is printed ==================================== *)
@@ -192,7 +207,7 @@ EntryJson(v, n, s) ==
      rx    |-> [i \in 1..Len(AbsParts) |-> QV(MicroVec(v, n, s, AbsParts[i]))],
      nu    |-> QV([g \in Grp |-> Nu(n, g)]),
      total |-> QV([g \in Grp |-> Tot(v, n, s, g)]), transport |-> QV([g \in Grp |-> Trn(v, n, s, g)]),
-     efiss |-> Q(EFiss(n)), ecapt |-> Q(ECapt(n)),
+     efiss |-> Q(EFiss(v, n)), ecapt |-> Q(ECapt(v, n)),
      hasScat |-> [i \in 1..3 |-> HasScat(v, n, ScatKinds[i])],
      scat    |-> [i \in 1..3 |-> QM(MicroScat(v, n, s, ScatKinds[i]))],
      totScat |-> QM(MicroTotScat(v, n, s)),
